@@ -500,10 +500,17 @@ func loadMetadata(bs []byte) (*meta, error) {
 	offset := sectionsStart
 
 	for _, so := range sos {
+		// Every section, whether it is parsed here or not, occupies so.Length
+		// bytes and must lie inside the bundle. offset never exceeds len(bs).
+		if so.Length > uint64(len(bs))-offset {
+			return nil, &LoadMetadataError{fmt.Errorf("bundle: section %q's length %d out-of-range.", so.Name, so.Length), FormatError, fallbackURL}
+		}
 		if _, exists := knownSections[so.Name]; !exists {
+			offset += so.Length
 			continue
 		}
 		if so.Name == "responses" {
+			offset += so.Length
 			continue
 		}
 		if uint64(len(bs)) <= offset {
